@@ -140,7 +140,71 @@ func (c *Ctx) rangeOfIndex(idx ssa.Value, at ssa.Instruction) intRange {
 			}
 		}
 	}
+	// a predicate helper known true here: what its true answers imply for the parameter the value was passed for
+	for f := range facts {
+		call, ok := f.cond.(*ssa.Call)
+		if !ok || !f.pol {
+			continue
+		}
+		callee := call.Call.StaticCallee()
+		if callee == nil || callee.Blocks == nil || !c.isLibPkg(funcPkg(callee)) || callee.Signature.Results().Len() != 1 {
+			continue
+		}
+		for i, a := range call.Call.Args {
+			if i < len(callee.Params) && (c.sameVar(a, idx) || c.sameVar(a, base)) {
+				if o, ok := c.trueImpliesRange(callee, callee.Params[i]); ok {
+					merge(o)
+				}
+			}
+		}
+	}
 	return r
+}
+
+// trueImpliesRange: the hull of what the branch facts say about param at every place where fn (one bool
+// result) returns something other than the constant false.
+func (c *Ctx) trueImpliesRange(fn *ssa.Function, param *ssa.Parameter) (intRange, bool) {
+	var out intRange
+	first := true
+	join := func(o intRange) {
+		if first {
+			out, first = o, false
+			return
+		}
+		if !o.hasLo || !out.hasLo {
+			out.hasLo = false
+		} else if o.lo < out.lo {
+			out.lo = o.lo
+		}
+		if !o.hasHi || !out.hasHi {
+			out.hasHi = false
+		} else if o.hi > out.hi {
+			out.hi = o.hi
+		}
+	}
+	var visit func(v ssa.Value, at *ssa.BasicBlock, depth int)
+	visit = func(v ssa.Value, at *ssa.BasicBlock, depth int) {
+		if k, ok := v.(*ssa.Const); ok && k.Value != nil && k.Value.String() == "false" {
+			return
+		}
+		if phi, ok := v.(*ssa.Phi); ok && depth < 8 {
+			for i, e := range phi.Edges {
+				visit(e, phi.Block().Preds[i], depth+1)
+			}
+			return
+		}
+		join(c.rangeFromFacts(c.factsAt(at), param))
+	}
+	for _, b := range fn.Blocks {
+		if ret, ok := b.Instrs[len(b.Instrs)-1].(*ssa.Return); ok && len(ret.Results) == 1 {
+			if bt, ok := ret.Results[0].Type().Underlying().(*types.Basic); !ok || bt.Kind() != types.Bool {
+				return intRange{}, false
+			}
+			visit(ret.Results[0], b, 0)
+		}
+	}
+	out.ne = map[int64]bool{}
+	return out, !first
 }
 
 func ruleArrayIndex(c *Ctx, r *Report) {
